@@ -132,6 +132,12 @@ type Config struct {
 	// sides; 0 disables them.
 	HeartbeatMs      int `json:"heartbeat_ms,omitempty"`
 	HeartbeatLimitMs int `json:"heartbeat_limit_ms,omitempty"`
+	// MaxConcurrent is the number of Read calls (and of Write calls) that may
+	// be outstanding at the same time on one stream side (0 means 1).
+	MaxConcurrent int `json:"max_concurrent,omitempty"`
+	// LongPattern makes byte values a function of the full offset (period far
+	// above any write size) instead of offset mod 16: for large transfers.
+	LongPattern bool `json:"long_pattern,omitempty"`
 	// WriteSizesBySide, when non-nil for a side, replaces WriteSizes for it.
 	WriteSizesBySide [2][]int `json:"write_sizes_by_side,omitempty"`
 	// Preamble is executed before the explored suffix (not counted in Depth).
@@ -139,6 +145,13 @@ type Config struct {
 	Depth    int     `json:"depth"`
 	// Dedup prunes a branch whose quiescent state key was seen before.
 	Dedup bool `json:"dedup"`
+}
+
+func (c *Config) maxConcurrent() int {
+	if c.MaxConcurrent > 1 {
+		return c.MaxConcurrent
+	}
+	return 1
 }
 
 func (c *Config) has(kind string) bool {
@@ -156,6 +169,23 @@ func (c *Config) has(kind string) bool {
 // visible in the value itself.
 func byteAt(id, writer, off int) byte {
 	return byte((((id-1)*2+writer)&15)<<4 | off&15)
+}
+
+// byteAt picks the pattern the configuration asks for.
+func (w *world) byteAt(id, writer, off int) byte {
+	if w.cfg.LongPattern {
+		// Low byte of the offset through an odd multiplier (a bijection on it),
+		// mixed with the higher offset bytes and the stream / direction.
+		return byte(off*131 + (off>>8)*29 + (off>>16)*7 + ((id-1)*2+writer)*97)
+	}
+	return byteAt(id, writer, off)
+}
+
+func (w *world) describeByte(b byte) string {
+	if w.cfg.LongPattern {
+		return fmt.Sprintf("%#02x", b)
+	}
+	return describeByte(b)
 }
 
 func describeByte(b byte) string {
@@ -446,8 +476,45 @@ type sideModel struct {
 	eof               bool
 	deadlineErrSeen   [2]bool // a read / write returned os.ErrDeadlineExceeded
 	rdl, wdl          deadline
-	readCall          *call
-	writeCall         *call
+	// sent holds the bytes Write calls reported as written (len(sent) ==
+	// confirmed), in the order the calls were served.
+	sent []byte
+	// readCalls / writeCalls are the outstanding Read / Write calls in the
+	// order they were started, which is the order the stream serves them (each
+	// queues on the stream's read / write slot).
+	readCalls  []*call
+	writeCalls []*call
+}
+
+func (m *sideModel) pendingWriteBytes() int {
+	n := 0
+	for _, c := range m.writeCalls {
+		n += len(c.data)
+	}
+	return n
+}
+
+// bytesUpTo is the number of bytes offered by the outstanding Write calls up to
+// and including c.
+func (m *sideModel) bytesUpTo(c *call) int {
+	n := 0
+	for _, pc := range m.writeCalls {
+		n += len(pc.data)
+		if pc == c {
+			break
+		}
+	}
+	return n
+}
+
+func removeCall(list []*call, c *call) []*call {
+	out := list[:0:0]
+	for _, x := range list {
+		if x != c {
+			out = append(out, x)
+		}
+	}
+	return out
 }
 
 type streamModel struct {
@@ -598,25 +665,28 @@ func (w *world) do(ev Event, step int) bool {
 		h := m.handle
 		switch ev.K {
 		case "write":
-			if m.writeCall != nil {
+			if len(m.writeCalls) >= w.cfg.maxConcurrent() {
 				return false
 			}
+			// The data continues where the bytes handed to earlier Write calls
+			// (returned or still outstanding) end.
+			off := m.confirmed + m.pendingWriteBytes()
 			data := make([]byte, ev.N)
 			for i := range data {
-				data[i] = byteAt(ev.ID, s, m.confirmed+i)
+				data[i] = w.byteAt(ev.ID, s, off+i)
 			}
 			c := &call{kind: "write", side: s, id: ev.ID, n: ev.N, data: data}
-			m.writeCall = c
+			m.writeCalls = append(m.writeCalls, c)
 			if ev.N == 0 {
 				w.sawSpecial = true
 			}
 			w.launch(c, step, func(c *call) { c.count, c.err = h.Write(c.data) })
 		case "read":
-			if m.readCall != nil {
+			if len(m.readCalls) >= w.cfg.maxConcurrent() {
 				return false
 			}
 			c := &call{kind: "read", side: s, id: ev.ID, n: ev.N, data: make([]byte, ev.N)}
-			m.readCall = c
+			m.readCalls = append(m.readCalls, c)
 			if ev.N == 0 {
 				w.sawSpecial = true
 			}
@@ -796,7 +866,7 @@ func (w *world) fold(c *call, step int) {
 		st.side[c.side].handle = c.stream
 	case "write":
 		m := &w.streams[c.id].side[c.side]
-		m.writeCall = nil
+		m.writeCalls = removeCall(m.writeCalls, c)
 		if c.count < 0 || c.count > len(c.data) {
 			w.violate("C23", "write-count", fmt.Sprintf("%s returned count %d for %d bytes", c, c.count, len(c.data)), step)
 			return
@@ -806,6 +876,7 @@ func (w *world) fold(c *call, step int) {
 			w.violate("C23", "write-short-no-error", fmt.Sprintf("%s returned (%d, nil)", c, c.count), step)
 		}
 		m.confirmed += c.count
+		m.sent = append(m.sent, c.data[:c.count]...)
 		if isDeadline(c.err) {
 			m.deadlineErrSeen[1] = true
 		}
@@ -841,7 +912,7 @@ func clamp(n, hi int) int {
 func (w *world) foldRead(c *call, step int) {
 	st := w.streams[c.id]
 	me, peer := &st.side[c.side], &st.side[1-c.side]
-	me.readCall = nil
+	me.readCalls = removeCall(me.readCalls, c)
 	if c.count < 0 || c.count > len(c.data) {
 		w.violate("C23", "read-count", fmt.Sprintf("%s returned count %d for a %d byte buffer", c, c.count, len(c.data)), step)
 		return
@@ -850,23 +921,39 @@ func (w *world) foldRead(c *call, step int) {
 	// side, in order, without loss or duplication ... data on one stream never
 	// appears on another": byte number k read here must be byte number k the
 	// peer wrote on this stream.
+	// The reference stream is what the peer's Write calls reported as written,
+	// followed by the data of its outstanding Write calls in the order they
+	// will be served.
+	expected := func(k int) (byte, bool) {
+		if k < len(peer.sent) {
+			return peer.sent[k], true
+		}
+		k -= len(peer.sent)
+		for _, pc := range peer.writeCalls {
+			if k < len(pc.data) {
+				return pc.data[k], true
+			}
+			k -= len(pc.data)
+		}
+		return 0, false
+	}
 	for i := 0; i < c.count; i++ {
-		want := byteAt(c.id, 1-c.side, me.read+i)
+		want, ok := expected(me.read + i)
+		if !ok {
+			break // beyond everything handed to Write: reported below
+		}
 		if c.data[i] != want {
 			class := "order-or-duplication"
-			if c.data[i]>>4 != want>>4 {
+			if !w.cfg.LongPattern && c.data[i]>>4 != want>>4 {
 				class = "cross-stream"
 			}
-			w.violate("C23", class, fmt.Sprintf("%s: byte %d of the stream is %s, expected %s", c, me.read+i, describeByte(c.data[i]), describeByte(want)), step)
+			w.violate("C23", class, fmt.Sprintf("%s: byte %d of the stream is %s, expected %s", c, me.read+i, w.describeByte(c.data[i]), w.describeByte(want)), step)
 			break
 		}
 	}
 	// Nothing can be read that the peer's Write calls did not report (or, for a
 	// Write still in progress, were not handed).
-	upper := peer.confirmed
-	if peer.writeCall != nil {
-		upper += len(peer.writeCall.data)
-	}
+	upper := peer.confirmed + peer.pendingWriteBytes()
 	if me.read+c.count > upper {
 		w.violate("C23", "phantom-bytes", fmt.Sprintf("%s: %d bytes read in total but the peer's Write calls reported only %d bytes written", c, me.read+c.count, upper), step)
 	}
@@ -989,7 +1076,7 @@ func (w *world) invariants(step int) {
 				// head-of-line block when another stream of this side holds
 				// delivered data nobody is reading.
 				for _, other := range w.streams {
-					if other.id != c.id && other.side[s].readCall == nil && other.side[1-s].confirmed > other.side[s].read {
+					if other.id != c.id && len(other.side[s].readCalls) == 0 && other.side[1-s].confirmed > other.side[s].read {
 						w.violate("C25", cls("head-of-line:read", s), fmt.Sprintf("%s is blocked although its %d bytes were delivered, while stream %d has unread data and no reader", c, peer.confirmed-me.read, other.id), step)
 						break
 					}
@@ -1005,13 +1092,13 @@ func (w *world) invariants(step int) {
 				w.violate("C25", cls("blocked-after-close:write", s), fmt.Sprintf("%s is still blocked although Close/CloseWrite was called on the stream", c), step)
 			case peer.cCalled && w.wires[1-s].idle() && !closed[1-s]:
 				w.violate("C25", cls("blocked-after-peer-close:write", s), fmt.Sprintf("%s is still blocked although the peer closed the stream and its close was delivered", c), step)
-			case idle && !closed[1-s] && !peer.cCalled && w.cfg.W > 0 && me.confirmed+len(c.data)-peer.read <= w.cfg.W:
+			case idle && !closed[1-s] && !peer.cCalled && w.cfg.W > 0 && me.confirmed+me.bytesUpTo(c)-peer.read <= w.cfg.W:
 				// "A stream whose reader stops consuming never prevents data
 				// from flowing on other streams": with nothing in flight in
 				// either direction the only legitimate reason for a Write to
 				// be blocked is that the peer's receive window for THIS stream
 				// cannot take the data, i.e. unread bytes would exceed it.
-				w.violate("C25", cls("write-stalled-with-window", s), fmt.Sprintf("%s is blocked although nothing is in flight and the peer's window has room: %d reported + %d offered - %d read by peer <= window %d", c, me.confirmed, len(c.data), peer.read, w.cfg.W), step)
+				w.violate("C25", cls("write-stalled-with-window", s), fmt.Sprintf("%s is blocked although nothing is in flight and the peer's window has room: %d reported + %d offered (earlier outstanding writes included) - %d read by peer <= window %d", c, me.confirmed, me.bytesUpTo(c), peer.read, w.cfg.W), step)
 				// C23 "deliver bytes reliably ... without loss": the same state
 				// means bytes handed to Write can never reach a peer that has
 				// consumed everything before (e.g. receive-window credit that
@@ -1058,13 +1145,28 @@ func (w *world) key() string {
 		}
 		b.WriteString("\n")
 	}
-	var pend []string
+	// Pending calls, grouped by (side, stream, kind); within a group in start
+	// order, which is the order the stream will serve them.
+	var pc []*call
 	for _, c := range w.calls {
 		if !c.done {
-			pend = append(pend, c.String())
+			pc = append(pc, c)
 		}
 	}
-	sort.Strings(pend)
+	sort.SliceStable(pc, func(i, j int) bool {
+		a, b := pc[i], pc[j]
+		if a.side != b.side {
+			return a.side < b.side
+		}
+		if a.id != b.id {
+			return a.id < b.id
+		}
+		return a.kind < b.kind
+	})
+	pend := make([]string, len(pc))
+	for i, c := range pc {
+		pend[i] = c.String()
+	}
 	fmt.Fprintf(&b, "pending=%v\nA>B %s\nB>A %s\nunflushed A=%v B=%v\n", pend, w.wires[0].key(), w.wires[1].key(), w.accLog[0], w.accLog[1])
 	return b.String()
 }
@@ -1120,18 +1222,18 @@ func (w *world) menu() []Event {
 				armed = true
 			}
 			live := !sm.cCalled || cfg.AfterClose
-			if cfg.Writers[s] && sm.writeCall == nil && live && (!sm.cwCalled || cfg.AfterClose) {
+			if cfg.Writers[s] && len(sm.writeCalls) < cfg.maxConcurrent() && live && (!sm.cwCalled || cfg.AfterClose) {
 				sizes := cfg.WriteSizes
 				if cfg.WriteSizesBySide[s] != nil {
 					sizes = cfg.WriteSizesBySide[s]
 				}
 				for _, n := range sizes {
-					if sm.confirmed+n <= cfg.MaxBytes {
+					if sm.confirmed+sm.pendingWriteBytes()+n <= cfg.MaxBytes {
 						m = append(m, Event{K: "write", S: s, ID: id, N: n})
 					}
 				}
 			}
-			if cfg.Readers[s] && sm.readCall == nil && live && (!sm.eof || cfg.AfterClose) {
+			if cfg.Readers[s] && len(sm.readCalls) < cfg.maxConcurrent() && live && (!sm.eof || cfg.AfterClose) {
 				for _, n := range cfg.ReadSizes {
 					m = append(m, Event{K: "read", S: s, ID: id, N: n})
 				}
